@@ -130,6 +130,12 @@ def main(argv):
         st0, v0 = viewgen.random_view(rng, 3, {"show": 0, "list": 0, "nossr": 0.5, "nohydrate": 0.5})   # (a hidden Show consumes keys without emitting them)
         e0 = ("sync", viewgen.sx_state(st0), viewgen.sx_view(v0))
         mixed.append([e0, ("sus", "streaming", susrender.sx(av), "(%s)" % " ".join(map(str, gs))), e0, ("sus", "blocking", susrender.sx(av), "(%s)" % " ".join(map(str, gs))), e0])
+    # dynamic views that take a stable counter value when they are built (ids for label / input pairs): the counter is bookkeeping, the
+    # views must be built once, ids and hydration keys in creation order
+    for nd in (1, 2, 3, 5):
+        c = ("counters", str(nd))
+        mixed.append([c, ("counters", "2"), c])
+        mixed.append([c, ("sus", "streaming", susrender.sx(susrender.real_view(shapes[0])), "(1)"), c])
     text = "\n".join("(seq %s)" % " ".join("(%s)" % " ".join(e) for e in s) for s in mixed) + "\n"
     rc, so, se = vlib.run_driver(binp, text)
     mblocks = so.rstrip("\n").split("\n==\n")
@@ -163,6 +169,11 @@ def main(argv):
             hks = [tuple(int(x) for x in m.split(".")) for m in re.findall(r' data-hk="(\d+\.\d+)"', out)]
             if len(set(hks)) != len(hks):
                 mfail.append({"what": "hydration keys not unique within one render", "render": " ".join(e), "keys": hks})
+            if e[0] == "counters":
+                ids = [int(x) for x in re.findall(r' id="l(\d+)"', out)]
+                if ids != list(range(2, 2 + int(e[1]))):
+                    mfail.append({"what": "stable counter values taken by dynamic views are not 2, 3, ... in creation order (a view was built more than once)",
+                                  "render": " ".join(e), "ids": ids, "output": out[:300]})
             sks = re.findall(r'<suspense-start data-key="(\d+)"', out)
             if len(set(sks)) != len(sks):
                 mfail.append({"what": "suspense keys not unique within one render", "render": " ".join(e), "keys": sks})
